@@ -107,6 +107,82 @@ def move_check(args):
     return out
 
 
+def walk_check(args):
+    """the two walk loops (__change_ranking_complete / _incomplete) for a concrete number of steps: every random draw is an
+    arbitrary value of its range; drawing from an empty range (ValueError) is an obligation; the invariant is preserved"""
+    n, name, steps = args
+    from corankco.ranking import Ranking
+    import random
+    out = []
+    I = merge.new_interp(unwind=n + 3)
+    r, rv = merge.sym_array(I, "r", (n,))
+    mb = [z3.Bool(f"miss{e}") for e in range(n)]
+    ms = merge.MSet(mb)
+    pre = [inv(rv, mb, n)]
+    complete = name.endswith("_complete")
+    if complete:
+        pre += [x >= 0 for x in rv]
+    rnd_vars = []
+
+    def m_randint(I_, a, b):
+        v = z3.Int(f"rand{len(rnd_vars)}")
+        rnd_vars.append((v, a, b))
+        I_.ctx.obligations.append((True, merge.to_z3(a) <= merge.to_z3(b), "randint range non-empty (ValueError otherwise)"))
+        return v
+
+    def m_randrange(I_, a, b=None, step=1):
+        if b is None:
+            a, b = 0, a
+        v = z3.Int(f"rand{len(rnd_vars)}")
+        rnd_vars.append((v, a, b - 1))
+        I_.ctx.obligations.append((True, merge.to_z3(a) < merge.to_z3(b), "randrange range non-empty (ValueError otherwise)"))
+        return v
+    I.models[random.randint] = m_randint
+    I.models[random.randrange] = m_randrange
+    fn = Ranking.__dict__["_Ranking" + name]
+    if complete:
+        I.call_function(fn, [r, steps, n])
+    else:
+        I.call_function(fn, [r, steps, n, ms])
+    STATS.encoded.update(I.ctx.encoded)
+    for v, a, b in rnd_vars:
+        pre.append(z3.And(v >= a, v <= b))
+    outv = [merge.to_z3(x) for x in merge.cells_of(I, r)]
+    s = harness.solver()
+    s.add(*[p for p in pre])
+    post = [inv(outv, ms.m, n)] + ([x >= 0 for x in outv] if complete else [])
+
+    def cex(mdl, what):
+        return {"signature": {"site": "Ranking." + name, "class": what.split(":")[0]}, "kind": "walk", "name": name, "n": n, "steps": steps, "complete": complete,
+                "what": f"{name} (n={n}, {steps} steps): {what}", "r": [harness.zval(mdl, x) for x in rv], "draws": [harness.zval(mdl, v) for v, _, _ in rnd_vars]}
+    # obligations on the ranges do not depend on the values drawn: check them without the range constraints
+    s0 = harness.solver()
+    s0.add(inv(rv, mb, n), *([x >= 0 for x in rv] if complete else []))
+    for g, f, txt in I.ctx.obligations:
+        if "range non-empty" in txt:
+            r_, mdl = harness.refute(s0, "index-bounds", z3.Not(merge.to_z3(f)))
+            if r_ == "sat":
+                out.append(cex(mdl, "range: " + txt))
+                return out
+            if r_ != "unsat":
+                raise harness.Inconclusive(txt)
+    I.ctx.obligations = [o for o in I.ctx.obligations if "range non-empty" not in o[2]]
+    if harness.check(s, "vacuity") != "sat":
+        raise harness.HarnessError("vacuous precondition")
+    rr, mdl = harness.refute(s, "property", z3.Not(z3.And(*post)))
+    if rr == "sat":
+        out.append(cex(mdl, "invariant: the walk breaks the dense-numbering invariant"))
+    elif rr != "unsat":
+        raise harness.Inconclusive(name)
+    for txt, r2, mdl2 in merge.discharge_obligations(I, s):
+        if mdl2 is None:
+            raise harness.Inconclusive(txt)
+        out.append(cex(mdl2, "obligation: " + txt))
+    STATS.states += 1
+    STATS.sample({"kernel": "Ranking." + name, "n": n, "steps": steps, "draws": "arbitrary values of their ranges"})
+    return out
+
+
 def valid_vectors(n, complete):
     """all vectors satisfying the invariant"""
     return [v for v in shapes.rankings_over(n, allow_empty=True) if not complete or -1 not in v]
@@ -258,11 +334,38 @@ def run(run):
     run.rule = "moves: one invariant query + obligations per (n, function, mode); wrappers: every combination of havoc vectors / permutations is one path"
     run.part("validate_moves", lambda: validate_moves(run.seed, 60))
     run.pmap("moves", move_check, kern)
+    walks = [(n, nm, st) for n in ([1, 2, 3] if not run.thorough else [1, 2, 3, 4]) for nm in ("__change_ranking_complete", "__change_ranking_incomplete") for st in (1, 2)]
+    run.bounds["walk loops [S] (n, function, steps)"] = walks
+    run.pmap("walks", walk_check, walks)
     run.pmap("wrappers", wrapper_item, wr)
 
 
 def replay(p):
     from corankco.ranking import Ranking
+    if p["kind"] == "walk":
+        import corankco.ranking as RK
+        n = p["n"]
+        r = np.array(p["r"], dtype=int)
+        draws = list(p["draws"])
+        saved = (RK.randint, getattr(RK, "randrange", None))
+        RK.randint = lambda a, b: (draws.pop(0) if draws else a) if a <= b else (_ for _ in ()).throw(ValueError(f"empty range for randint({a}, {b})"))
+        if saved[1] is not None:
+            RK.randrange = lambda a, b=None, step=1: (draws.pop(0) if draws else a) if (b if b is not None else a) > (a if b is not None else 0) else (_ for _ in ()).throw(ValueError("empty range in randrange"))
+        miss = {e for e in range(n) if r[e] == -1}
+        try:
+            if p["complete"]:
+                Ranking.__dict__["_Ranking" + p["name"]].__func__(r, p["steps"], n)
+            else:
+                Ranking.__dict__["_Ranking" + p["name"]].__func__(r, p["steps"], n, miss)
+        except Exception as e:  # noqa
+            return True, f"{p['name']}({p['r']}, steps={p['steps']}) raised {type(e).__name__}: {e}"
+        finally:
+            RK.randint = saved[0]
+            if saved[1] is not None:
+                RK.randrange = saved[1]
+        ids = sorted(set(int(x) for x in r if x != -1))
+        ok = ids == list(range(len(ids))) and miss == {e for e in range(n) if r[e] == -1} and (not p["complete"] or all(x >= 0 for x in r))
+        return (not ok), f"{p['name']}({p['r']}, draws={p['draws']}) -> {list(r)}, missing={sorted(miss)}"
     if p["kind"] == "move":
         n = p["n"]
         r = np.array(p["r"], dtype=int)
